@@ -29,7 +29,13 @@ for p in props:
         na.append({"property_id": p, "reason": "check not built yet (see DESIGN.md section 5 for the plan); nothing is claimed"})
 hooks_file = os.path.join(ROOT, "checks", "hooks.json")
 hooks = json.load(open(hooks_file))
-engines = json.load(open(os.path.join(ROOT, "checks", "engines.json")))
+commits = []
+for f in sorted(glob.glob(os.path.join(ROOT, "checks", "hook_commits", "*.txt"))):
+    for line in open(f):
+        if line.strip():
+            commits.append(line.split()[0])
+hooks["source_commits"] = commits
+engines = [json.load(open(f)) for f in sorted(glob.glob(os.path.join(ROOT, "checks", "engine_*.json")))]
 man = {
     "version": 1,
     "setup_cmd": "./setup.sh",
